@@ -273,6 +273,11 @@ def finish(spec, modname, tier, seed, reports, bounded, t0, write_ledger=False):
         'undecided': undecided,
         'bounded_standins': bounded_out + fallback,
         'assumed_contracts': spec.assumed,
+        # mechanical scan of the contract worlds: every contract flagged assumed=True (never proved here: interface stubs,
+        # library functions, functions proved under another property) and every assumed invariant instance
+        'assumed_contract_scan': sorted({c.name + (' [invariant instances assumed]' if c.invariants and not c.assumed else '')
+                                         for w_ in [spec.world] + list(getattr(spec, 'worlds', {}).values())
+                                         for c in w_.by_name.values() if c.assumed or c.invariants}),
         'known_findings_matched': [k['id'] for k, _ in known_hit],
         'solver_secs': round(sum(o['secs'] for r in reports if 'crash' not in r for o in r['obligations']), 2),
         'samples': samples or [{'note': 'no discharged obligation to show'}],
